@@ -256,6 +256,14 @@ def gen(args) -> list:
                     n1 = rday(cal)
                     n2 = rday(cal, near=n1, spread=rnd.choice([3, 40, 400, 5000, 800000]))
                     d1, d2 = ctor(days_since_epoch=n1, calendar=cal), ctor(days_since_epoch=n2, calendar=cal)
+                    if rnd.random() < 0.3:
+                        # month ends and days 28-31 on both sides: where "one more month would pass the end" depends on clamping
+                        def month_end_like(x):
+                            dim = cal.get_days_in_month(x.year, x.month)
+                            return LocalDate(x.year, x.month, rnd.choice([dim, dim, max(1, dim - 1), min(dim, 28), min(dim, 29), min(dim, 30)]), cal)
+
+                        d1, d2 = month_end_like(d1), month_end_like(d2)
+                        n1, n2 = d1._days_since_epoch, d2._days_since_epoch
                     if kind == "date":
                         a, b = d1, d2
                         pt = lambda x: [x._days_since_epoch, 0, 0]  # noqa: E731
